@@ -15,8 +15,8 @@ RULE = ("histories of connection attempts on the simulated network (virtual time
 TRUSTED = ["harness/simnet.py in-memory transport: close() -> connection_lost exactly once via call_soon; the accessory's view of 'open' is the set of transports not yet lost",
            "harness/acc.py scaffold accessory (pair-verify via `cryptography`)"]
 ASSUMPTIONS = ["one model event = one harness action followed by running the loop to quiescence at that virtual instant; the census is taken at quiescence (a transport the controller closed is gone from the accessory's view once its loss callback ran)",
-               "re-subscription traffic inside connection_made is absent (no subscriptions in these runs; C12 covers it)"]
-EXPLANATION = ("Lean theorems C11_* over HapVerif.Reconnect: the invariant open = current (at most one, none leaked) for every reachable state, failed setup leaves nothing open, close/shutdown total and leave nothing open, "
+               "one characteristic is subscribed from the start, so every new session re-subscribes inside connection_made (the `ol` verdict drops the connection at that request); the subscription bookkeeping itself is C12"]
+EXPLANATION = ("Lean theorems C11_* over HapVerif.Reconnect: the invariant open = current (at most one, none leaked) for every reachable state, failed setup leaves nothing open, close/shutdown total and leave nothing open - then or later, until something asks for a connection again (never, after shutdown) - , "
                "stale loss is the identity; differential tie on the open-connection census after every event + implementation-level census oracle and stale-loss probe")
 
 
@@ -29,13 +29,25 @@ def cases_for(ctx):
         # append closes of every connection index in a random order, then close
         idx = list(range(6))
         rng.shuffle(idx)
-        e = [x for x in e if x not in ("x", "X")] + [f"p:{k}" for k in idx[:3]] + [f"a:{rcsim.U}"] + [f"p:{k}" for k in idx[3:]] + [rng.choice(["x", "X"]), f"a:{rcsim.U}"]
+        end = rng.choice(["x", "X"])
+        # ... and after the close: time passes (anything the connector still had in flight would land now); a shut-down
+        # pairing also hears from zeroconf again
+        after = [f"a:{12 * rcsim.U}"] + (["s", f"a:{rcsim.U}", "d:1,2", f"a:{12 * rcsim.U}"] if end == "X" else [])
+        e = [x for x in e if x not in ("x", "X")] + [f"p:{k}" for k in idx[:3]] + [f"a:{rcsim.U}"] + [f"p:{k}" for k in idx[3:]] + [end, f"a:{rcsim.U}"] + after
         cases.append((h, e, "fault-seq"))
+    # close while a TCP connect is still in flight, with more addresses to go and an accessory that would answer
+    for hosts in ([1, 2], [1, 2, 3]):
+        for pre in (["t:t", "t:o:0"], ["t:t", "t:t", "t:o:0"], ["t:r", "t:t", "t:o:0", "v:ok:ok"]):
+            for start in ("e:1:-", "s"):
+                for dt in (2, rcsim.U, 9 * rcsim.U):
+                    for end in ("x", "X"):
+                        cases.append((hosts, pre + [start, f"a:{dt}", end, f"a:{12 * rcsim.U}", f"a:{40 * rcsim.U}"], "close-in-flight"))
     for h, e in rcsim.gen_schedules(rng, ctx.budget(3, 4), sample=ctx.budget(700, 8000)):
         cases.append((h, e + ["x"], "schedule"))
     for _ in range(ctx.budget(700, 14000)):
         h, e = rcsim.gen_random(rng)
-        cases.append((h, e + [rng.choice(["x", "X"])], "random"))
+        end = rng.choice(["x", "X"])
+        cases.append((h, e + [end, f"a:{12 * rcsim.U}"] + (["s", f"a:{rcsim.U}"] if end == "X" else []), "random"))
     return cases
 
 
@@ -54,5 +66,6 @@ def search(ctx: Ctx, driver: Driver, broken):
     cases = []
     for i in range(ctx.budget(3000, 30000)):
         h, e = rcsim.gen_random(rng)
-        cases.append((h, e + ["x"], "search"))
+        end = rng.choice(["x", "X"])
+        cases.append((h, e + [end, f"a:{12 * rcsim.U}"] + (["s", f"a:{rcsim.U}"] if end == "X" else []), "search"))
     run_cases(ctx, driver, ID, SIGS, cases)
